@@ -975,7 +975,7 @@ def budget(tier):
     if tier == 'quick':
         return {'runs': 3000, 'wall': 75, 'chunk': 16, 'selftest': 6, 'minimise_s': 60,
                 'canary_runs': 3000, 'canary_wall': 90}
-    return {'runs': 120000, 'wall': 1200, 'chunk': 32, 'selftest': 16, 'minimise_s': 180,
+    return {'runs': 120000, 'wall': 900, 'chunk': 32, 'selftest': 16, 'minimise_s': 180,
             'canary_runs': 3000, 'canary_wall': 90}
 
 
